@@ -56,6 +56,9 @@ def DataFrame_sort_key_decorators : List String := []
 /-- the signature of dataiter/data_frame.py: DataFrame.sort.sort_key: parameters in order, with the source text of their defaults -/
 def DataFrame_sort_key_signature : List String := ["colname", "dir"]
 
+/-- the calls of dataiter/data_frame.py: DataFrame.sort.sort_key in the order Python makes them along the source text -/
+def DataFrame_sort_key_call_order : List String := ["ValueError", "column.is_string", "column._is_string_fixed", "column.is_na", "column.is_na().any", "column.rank", "column._optimize_for_argsort", "column._is_string_fixed", "column.is_boolean", "column.is_bytes", "column.is_datetime", "column.is_float", "column.is_integer", "column.is_timedelta", "any", "column.is_number", "column.rank", "column.is_integer", "column.is_timedelta"]
+
 /-- dataiter/data_frame.py: DataFrame.sort (sha256 of the function source: 8fae1dd9a619a43c) -/
 def DataFrame_sort (truth : Term → Bool) : Out :=
   let sort_key' : Term := (Term.app "local-def" [(Term.app "def" [(Term.sym "sort_key"), (Term.app "params" [(Term.sym "colname"), (Term.sym "dir")]), (Term.app "block" [(Term.app "if" [(Term.app "NotIn" [(Term.sym "dir"), (Term.app "list" [(Term.int (1 : Int)), (Term.int (-(1 : Int)))])]), (Term.app "block" [(Term.app "raise" [(Term.sym "ValueError")])]), (Term.app "block" [])]), (Term.app "assign" [(Term.sym "column"), (Term.app "getitem" [(Term.sym "self"), (Term.sym "colname")])]), (Term.app "if" [(Term.app "And" [(Term.app "Or" [(Term.app ".is_string" [(Term.sym "column")]), (Term.app "._is_string_fixed" [(Term.sym "column")])]), (Term.app ".any" [(Term.app ".is_na" [(Term.sym "column")])])]), (Term.app "block" [(Term.app "assign" [(Term.sym "column"), (Term.app ".rank" [(Term.sym "column"), (Term.app "=method" [(Term.sym "'min'")])])])]), (Term.app "block" [])]), (Term.app "assign" [(Term.sym "column"), (Term.app "._optimize_for_argsort" [(Term.sym "column")])]), (Term.app "if" [(Term.app "And" [(Term.app "Gt" [(Term.sym "dir"), (Term.int (0 : Int))]), (Term.app "any" [(Term.app "tuple" [(Term.app "._is_string_fixed" [(Term.sym "column")]), (Term.app ".is_boolean" [(Term.sym "column")]), (Term.app ".is_bytes" [(Term.sym "column")]), (Term.app ".is_datetime" [(Term.sym "column")]), (Term.app ".is_float" [(Term.sym "column")]), (Term.app ".is_integer" [(Term.sym "column")]), (Term.app ".is_timedelta" [(Term.sym "column")])])])]), (Term.app "block" [(Term.app "return" [(Term.sym "column")])]), (Term.app "block" [])]), (Term.app "if" [(Term.app "not" [(Term.app ".is_number" [(Term.sym "column")])]), (Term.app "block" [(Term.app "assign" [(Term.sym "column"), (Term.app ".rank" [(Term.sym "column"), (Term.app "=method" [(Term.sym "'min'")])])])]), (Term.app "block" [])]), (Term.app "if" [(Term.app "And" [(Term.app "Lt" [(Term.sym "dir"), (Term.int (0 : Int))]), (Term.app ".is_integer" [(Term.sym "column")]), (Term.app "not" [(Term.app ".is_timedelta" [(Term.sym "column")])])]), (Term.app "block" [(Term.app "return" [(Term.app "~" [(Term.sym "column")])])]), (Term.app "block" [])]), (Term.app "return" [(Term.app "ifexp" [(Term.app "Gt" [(Term.sym "dir"), (Term.int (0 : Int))]), (Term.sym "column"), (Term.app "neg" [(Term.sym "column")])])])])])]);
@@ -68,5 +71,8 @@ def DataFrame_sort_decorators : List String := ["deco.new_from_generator"]
 
 /-- the signature of dataiter/data_frame.py: DataFrame.sort: parameters in order, with the source text of their defaults -/
 def DataFrame_sort_signature : List String := ["self", "**colname_dir_pairs"]
+
+/-- the calls of dataiter/data_frame.py: DataFrame.sort in the order Python makes them along the source text -/
+def DataFrame_sort_call_order : List String := ["sort_key", "colname_dir_pairs.items", "reversed", "tuple", "np.lexsort", "self.items", "column[indices].copy"]
 
 end DI.Gen
